@@ -232,7 +232,12 @@ def run(ctx):
         ctx.nontrivial.add((r["call"], r["step"], tuple(r["seq"][: r["step"] - 1])))
         if r["id"] in bad:
             ctx.reject(classify(r, bad[r["id"]]), f"spec rejects step {r['step']} ({r['call']}) of session {r['seq']}: {bad[r['id']]}", r)
-    ctx.evaluations = len(recs)
+    # whole dataflow sessions with registry changes in between, against the stateful Session specification
+    from .. import session as dataflow
+
+    ctx.mc("MC_Session", "MC_Session.cfg", workers=4)
+    srecs, _ = dataflow.run(ctx, 3000 if thorough else 150)
+    ctx.evaluations = len(recs) + len(srecs)
     ctx.extra["sessions"] = len(seqs)
     ctx.extra["catalogue"] = ids
     ctx.extra["calls_that_raise_in_reference"] = sorted(c for c, d in refs.items() if d.startswith("raise:"))
